@@ -184,6 +184,20 @@ CORE_ARGS = [('N',), ('D', D0 + 1), ('F', W0 + 60), ('Z', 1, W0), ('T', 86400), 
 CORE_ADD = [('D', D0 + 2), ('F', W0), ('U', W0), ('T', 7200)]
 
 
+# day offsets from 2020-01-01 around the 2020 DST changes of Europe/Berlin (03-29, 10-25) and America/New_York (03-08, 11-01)
+DST_DAYS = [0, 1, 2, 66, 67, 68, 87, 88, 89, 298, 299, 300, 304, 305, 306, 365]
+DST_SECS = [0, 3600, 5400, 7200, 9000, 10800, 43200]
+
+
+def dst_pairs():
+    """start / end in one zone on both sides of every DST change: zoneinfo subtracts wall clocks, pytz instants"""
+    for z in range(len(ZONES)):
+        for d1, d2 in [(66, 67), (67, 68), (87, 88), (88, 89), (298, 299), (299, 300), (304, 305), (305, 306), (88, 88), (299, 299)]:
+            for s1 in DST_SECS:
+                for s2 in DST_SECS:
+                    yield ('Z', z, (D0 + d1) * 86400 + s1), ('Z', z, (D0 + d2) * 86400 + s2)
+
+
 def alphabet(c, set_args, add_args, foreign=True):
     ops = []
     for a in ACCS:
@@ -201,7 +215,7 @@ def alphabet(c, set_args, add_args, foreign=True):
 
 def rand_arg(rng):
     r = rng.random()
-    day = D0 + rng.choice([0, 1, 2, 87, 88, 89, 298, 299, 300, 365])       # around 2020-03-29 and 2020-10-25
+    day = D0 + rng.choice(DST_DAYS)
     sec = rng.choice([0, 1, 3600, 5400, 7200, 9000, 10800, 43200, 86399])
     if r < 0.07:
         return ('N',)
@@ -347,7 +361,12 @@ def correspondence(ctx):
                 else:
                     for _ in range(ctx.vol(700, 1)):
                         corr_seq(ctx, c, prov, [ctx.rng.choice(core) for _ in range(3)])
-                for _ in range(ctx.vol(800)):
+                if c != 'J':
+                    for a, b in dst_pairs():
+                        if thorough or ctx.rng.random() < 0.25:
+                            corr_seq(ctx, c, prov, [('s', 'start', a), ('s', 'end', b)])
+                            ctx.count('dst_pair')
+                for _ in range(ctx.vol(1000)):
                     ops = [rand_op(ctx.rng, c) for _ in range(ctx.rng.randint(3, 8))]
                     corr_seq(ctx, c, prov, ops)
                     ctx.count(f'random_len:{len(ops)}')
@@ -532,7 +551,13 @@ def oracle(ctx):
                             continue            # provider-independent: checked once
                         ctx.evaluated((prov, c, ops))
                         oracle_seq(ctx, c, prov, ops)
-                for _ in range(ctx.vol(400)):
+                if c != 'J':
+                    for a, b in dst_pairs():
+                        if ctx.rng.random() < 0.1:
+                            ops = [('s', 'start', a), ('s', 'end', b)]
+                            ctx.evaluated((prov, c, tuple(ops)))
+                            oracle_seq(ctx, c, prov, ops)
+                for _ in range(ctx.vol(500)):
                     ops = [rand_op(ctx.rng, c) for _ in range(ctx.rng.randint(3, 8))]
                     if ctx.rng.random() < 0.5:
                         ops = [o for o in ops if o[0] != 'a'] or ops        # pure setter/deleter histories
